@@ -456,3 +456,45 @@ theorem progReady_of_topo {g : Graph} {comps : List (List Nat)} (h : TopoOrder g
       omega
 
 end RotoV.Tarjan
+
+/-! ## the orders `helpersFirst` (T7's checker) accepts -/
+
+namespace RotoV.Tarjan
+
+theorem length_eq_counts (l : List EmitGroup) :
+    l.length = l.count .clones + l.count .drops + l.count .eqs + l.count .items := by
+  induction l with
+  | nil => rfl
+  | cons a l ih =>
+    cases a <;> simp [ih] <;> omega
+
+theorem count_take_add_drop (l : List EmitGroup) (k : Nat) (g : EmitGroup) :
+    (l.take k).count g + (l.drop k).count g = l.count g := by
+  rw [← List.count_append, List.take_append_drop]
+
+/-- `helpersFirst` accepts exactly the six orders that put the three generated
+groups, each once, before the script's items -/
+theorem helpersFirst_iff (o : List EmitGroup) : helpersFirst o = true ↔ o ∈ helperFirstOrders := by
+  constructor
+  · intro h
+    have h' := h
+    unfold helpersFirst at h'
+    cases hk : o.idxOf? EmitGroup.items with
+    | none => simp [hk] at h'
+    | some k =>
+      simp only [hk, List.all_cons, List.all_nil, Bool.and_true, Bool.and_eq_true, beq_iff_eq] at h'
+      obtain ⟨⟨⟨hc1, hc0⟩, ⟨hd1, hd0⟩, ⟨he1, he0⟩⟩, hi⟩ := h'
+      have c1 := count_take_add_drop o k .clones
+      have d1 := count_take_add_drop o k .drops
+      have e1 := count_take_add_drop o k .eqs
+      have hl := length_eq_counts o
+      have hlen : o.length = 4 := by omega
+      match o, hlen with
+      | [a, b, c, d], _ =>
+        revert h
+        cases a <;> cases b <;> cases c <;> cases d <;> decide
+  · intro h
+    simp only [helperFirstOrders, List.mem_cons, List.mem_nil_iff, or_false] at h
+    rcases h with h | h | h | h | h | h <;> subst h <;> decide
+
+end RotoV.Tarjan
